@@ -605,6 +605,26 @@ def _to_c_expr(
             return f"({op_token}{emit(n.operand)})"
 
         if isinstance(n, ast.BoolOp):
+            labels = [_infer_arg_type(v) for v in n.values]
+            if all(label in {"int", "float", "bool"} for label in labels) and any(
+                label != "bool" for label in labels
+            ):
+                # ``a or b`` is ``a`` when ``a`` is truthy, else ``b`` (``and`` the other
+                # way round): with numbers the result is an operand, not 0 / 1.
+                result_type = "float" if "float" in labels else "int"
+                expr = f"static_cast<{result_type}>({emit(n.values[-1])})"
+                for value in reversed(n.values[:-1]):
+                    first = f"static_cast<{result_type}>(__redu_b)"
+                    chosen = (
+                        f"__redu_b ? {expr} : {first}"
+                        if isinstance(n.op, ast.And)
+                        else f"__redu_b ? {first} : {expr}"
+                    )
+                    expr = (
+                        f"([&]() -> {result_type} {{ auto __redu_b = {emit(value)}; "
+                        f"return {chosen}; }}())"
+                    )
+                return expr
             op_token = "&&" if isinstance(n.op, ast.And) else "||"
             return "(" + f" {op_token} ".join(emit(v) for v in n.values) + ")"
 
@@ -1123,6 +1143,22 @@ def _infer_expr_type(
         return "int" if operand_type == "bool" else operand_type
 
     if isinstance(node, ast.BoolOp):
+        labels = [
+            _infer_expr_type(
+                value,
+                var_types,
+                functions,
+                function_param_types,
+                function_param_orders,
+                ctx,
+            )
+            for value in node.values
+        ]
+        if all(label in {"int", "float", "bool"} for label in labels) and any(
+            label != "bool" for label in labels
+        ):
+            # the value of ``a or b`` is one of the operands
+            return "float" if "float" in labels else "int"
         return "bool"
 
     if isinstance(node, ast.Compare):
